@@ -918,3 +918,144 @@ Proof.
       [destruct c|destruct cn|destruct n|destruct m|destruct g|destruct t|destruct p| |]; reflexivity. }
   subst r'. now apply post_init_valid.
 Qed.
+
+(* ---------------------------------------------------------------- with_defaults *)
+Lemma ulook_notin d f : ~ In (fld_key f) (map fst d) -> ulook d f = None.
+Proof.
+  induction d as [|[k v] t IH]; cbn [ulook map fst]; intros H; [reflexivity|].
+  rewrite IH by (intros Hi; apply H; right; exact Hi).
+  destruct (str_eqb k (fld_key f)) eqn:E; [|reflexivity].
+  apply str_eqb_eq in E. exfalso. apply H. left. exact E.
+Qed.
+
+Lemma ulook_ud_set d k v f : NoDup (map fst d) ->
+  ulook (ud_set d k v) f = if str_eqb k (fld_key f) then Some v else ulook d f.
+Proof.
+  induction d as [|[k' v'] t IH]; intros Hn; cbn [ud_set ulook].
+  - reflexivity.
+  - inversion Hn as [|? ? Hk' Ht]; subst. destruct (str_eqb k k') eqn:Ekk.
+    + apply str_eqb_eq in Ekk. subst k'. cbn [ulook].
+      destruct (str_eqb k (fld_key f)) eqn:Ek.
+      * apply str_eqb_eq in Ek. subst k. now rewrite (ulook_notin t f Hk').
+      * reflexivity.
+    + cbn [ulook]. rewrite (IH Ht). destruct (str_eqb k (fld_key f)) eqn:Ek; reflexivity.
+Qed.
+
+Lemma ud_set_keys d k v x : In x (map fst (ud_set d k v)) -> In x (map fst d) \/ x = k.
+Proof.
+  induction d as [|[k' v'] t IH]; cbn [ud_set].
+  - cbn. intros [<-|[]]. now right.
+  - destruct (str_eqb k k') eqn:E.
+    + apply str_eqb_eq in E. subst k'. cbn. tauto.
+    + cbn. intros [<-|H]; [left; now left|]. destruct (IH H) as [H'|H']; [left; now right|now right].
+Qed.
+
+Lemma ud_set_nodup d k v : NoDup (map fst d) -> NoDup (map fst (ud_set d k v)).
+Proof.
+  induction d as [|[k' v'] t IH]; intros Hn; cbn [ud_set].
+  - cbn. constructor; [intros []|constructor].
+  - inversion Hn as [|? ? Hk' Ht]; subst. destruct (str_eqb k k') eqn:E.
+    + apply str_eqb_eq in E. subst k'. cbn. now constructor.
+    + cbn. constructor; [|now apply IH]. intros Hi. apply ud_set_keys in Hi as [Hi|Hi]; [contradiction|].
+      subst k'. now rewrite str_eqb_refl in E.
+Qed.
+
+Lemma ud_set_in d k v x : In x (ud_set d k v) -> In x d \/ x = (k, v).
+Proof.
+  induction d as [|[k' v'] t IH]; cbn [ud_set].
+  - cbn. intros [<-|[]]. now right.
+  - destruct (str_eqb k k'); cbn.
+    + intros [<-|H]; [now right|left; now right].
+    + intros [<-|H]; [left; now left|]. destruct (IH H) as [H'|H']; [left; now right|now right].
+Qed.
+
+Lemma ulook_ud_merge b : forall a f, NoDup (map fst a) ->
+  ulook (ud_merge a b) f = match ulook b f with Some x => Some x | None => ulook a f end.
+Proof.
+  unfold ud_merge. induction b as [|[k v] b IH]; intros a f Hn; cbn [fold_left fst snd ulook].
+  - reflexivity.
+  - rewrite IH by now apply ud_set_nodup. rewrite (ulook_ud_set a k v f Hn).
+    destruct (ulook b f); [reflexivity|]. destruct (str_eqb k (fld_key f)); reflexivity.
+Qed.
+
+Lemma ud_merge_typed b : forall a, entries_typed a -> entries_typed b -> entries_typed (ud_merge a b).
+Proof.
+  unfold ud_merge. induction b as [|[k v] b IH]; intros a Ha Hb; cbn [fold_left fst snd]; [exact Ha|].
+  apply IH.
+  - intros k' v' Hin. apply ud_set_in in Hin as [Hin|Hin]; [now apply Ha|].
+    inversion Hin; subst. apply Hb. now left.
+  - intros k' v' Hin. apply Hb. now right.
+Qed.
+
+Fixpoint nodup_str_b (l : list str) : bool :=
+  match l with [] => true | x :: t => negb (mem_str x t) && nodup_str_b t end.
+Lemma mem_str_in x l : mem_str x l = true <-> In x l.
+Proof.
+  induction l as [|y l IH]; cbn; [split; [discriminate|tauto]|].
+  rewrite orb_true_iff, IH, str_eqb_eq. split; intros [H|H]; auto.
+Qed.
+Lemma nodup_str_b_sound l : nodup_str_b l = true -> NoDup l.
+Proof.
+  induction l as [|x l IH]; cbn; [constructor|]. intros H. apply andb_true_iff in H as [H1 H2].
+  constructor; [|now apply IH]. intros Hi. apply mem_str_in in Hi. now rewrite Hi in H1.
+Qed.
+
+Lemma to_dict_nodup r : NoDup (map fst (to_dict r)).
+Proof.
+  apply nodup_str_b_sound. destruct r as [c cn n m g t p e md].
+  destruct c, cn, n, m, g, t, p; vm_compute; reflexivity.
+Qed.
+
+(* r.with_defaults(d): exactly the declarative "fill the unset fields", or ValueError when that is not valid *)
+Lemma with_defaults_assign r d :
+  exists x, assign (ud_merge (to_dict d) (to_dict r)) default_res = Ok x /\ x = filled r d.
+Proof.
+  assert (Ht : entries_typed (ud_merge (to_dict d) (to_dict r)))
+    by (apply ud_merge_typed; apply to_dict_typed).
+  destruct (assign_ok _ Ht default_res) as [x E]. exists x. split; [exact E|].
+  apply res_ext. intros f. rewrite (assign_get _ _ _ E f).
+  rewrite ulook_ud_merge by apply to_dict_nodup. rewrite !ulook_to_dict.
+  destruct r as [c cn n m g t p e md], d as [c' cn' n' m' g' t' p' e' md'].
+  destruct f; cbn;
+    [destruct c, c'|destruct cn, cn'|destruct n, n'|destruct m, m'|destruct g, g'|destruct t, t'
+     |destruct p, p'| |]; reflexivity.
+Qed.
+
+Lemma with_defaults_spec r d :
+  with_defaults r (Some d) =
+    ((if sp_valid (filled r d) then Ok (filled r d) else Err ValueError), r, Some d, false).
+Proof.
+  unfold with_defaults, construct.
+  rewrite (keys_known _ (ud_merge_typed _ _ (to_dict_typed d) (to_dict_typed r))).
+  destruct (with_defaults_assign r d) as (x & E & ->). rewrite E. cbn [bind].
+  now rewrite post_init_sp.
+Qed.
+
+Lemma with_defaults_keeps r d : valid_res r -> valid_res d ->
+  (valid_res (filled r d) -> fst (fst (fst (with_defaults r (Some d)))) = Ok (filled r d))
+  /\ (~ valid_res (filled r d) -> fst (fst (fst (with_defaults r (Some d)))) = Err ValueError)
+  /\ with_defaults r None = (Ok r, r, None, true).
+Proof.
+  intros _ _. rewrite with_defaults_spec. cbn [fst]. split; [|split; [|reflexivity]].
+  - intros H. apply sp_valid_iff in H. now rewrite H.
+  - intros H. destruct (sp_valid (filled r d)) eqn:E; [|reflexivity]. apply sp_valid_iff in E. contradiction.
+Qed.
+
+(* what "filled" means, field by field: set on the receiver -> kept; unset -> taken from the defaults *)
+Lemma filled_keeps r d :
+  (forall z, cpus r = Some z -> cpus (filled r d) = Some z)
+  /\ (forall z, gpus r = Some z -> gpus (filled r d) = Some z)
+  /\ (forall z, nodes r = Some z -> nodes (filled r d) = Some z)
+  /\ (forall z, cpus_per_node r = Some z -> cpus_per_node (filled r d) = Some z)
+  /\ (forall z, memory r = Some z -> memory (filled r d) = Some z)
+  /\ (forall z, time r = Some z -> time (filled r d) = Some z)
+  /\ (forall z, partition r = Some z -> partition (filled r d) = Some z)
+  /\ (cpus r = None -> cpus (filled r d) = cpus d) /\ (gpus r = None -> gpus (filled r d) = gpus d)
+  /\ (nodes r = None -> nodes (filled r d) = nodes d)
+  /\ (cpus_per_node r = None -> cpus_per_node (filled r d) = cpus_per_node d)
+  /\ (memory r = None -> memory (filled r d) = memory d) /\ (time r = None -> time (filled r d) = time d)
+  /\ (partition r = None -> partition (filled r d) = partition d)
+  /\ extra_args (filled r d) = extra_args r /\ mode (filled r d) = mode r.
+Proof.
+  unfold filled, fill. cbn. repeat split; intros; try (now rewrite H); reflexivity.
+Qed.
